@@ -68,14 +68,14 @@ pub enum RQuery {
 pub fn rustc_probe(scratch: &Scratch, tag: &str, bindings: &str, prefix: &str, queries: &[RQuery]) -> Result<Vec<u64>, String> {
     let mut src = String::from("#![allow(warnings)]\nmod b {\n");
     src.push_str(bindings);
-    src.push_str("\n}\nfn tysz<T>(_: *const T) -> (usize, usize) { (::std::mem::size_of::<T>(), ::std::mem::align_of::<T>()) }\nfn main() {\n");
+    src.push_str("\n}\nfn heap<T>() -> *mut T { unsafe { let l = ::std::alloc::Layout::new::<T>(); if l.size() == 0 { ::std::ptr::NonNull::<T>::dangling().as_ptr() } else { ::std::alloc::alloc_zeroed(l) as *mut T } } }\nfn tysz<T>(_: *const T) -> (usize, usize) { (::std::mem::size_of::<T>(), ::std::mem::align_of::<T>()) }\nfn main() {\n");
     for q in queries {
         match q {
             RQuery::Size(t) => src.push_str(&format!("  println!(\"{{}}\", ::std::mem::size_of::<{prefix}{t}>());\n")),
             RQuery::Align(t) => src.push_str(&format!("  println!(\"{{}}\", ::std::mem::align_of::<{prefix}{t}>());\n")),
             RQuery::Offset(t, f) => src.push_str(&format!("  println!(\"{{}}\", ::std::mem::offset_of!({prefix}{t}, {f}));\n")),
             RQuery::FieldTy(t, f) => src.push_str(&format!(
-                "  {{ let u = ::std::mem::MaybeUninit::<{prefix}{t}>::uninit(); let (s, a) = tysz(unsafe {{ ::std::ptr::addr_of!((*u.as_ptr()).{f}) }}); println!(\"{{}}\", s); println!(\"{{}}\", a); }}\n")),
+                "  {{ let u: *mut {prefix}{t} = heap(); let (s, a) = tysz(unsafe {{ ::std::ptr::addr_of!((*u).{f}) }}); println!(\"{{}}\", s); println!(\"{{}}\", a); }}\n")),
         }
     }
     src.push_str("}\n");
